@@ -226,6 +226,13 @@ class Pipeline:
                         names = []
                     for x in names:
                         lines.append('\t\t"%s.%s": %s.%s,' % (pid, x, pid, x))
+        # messages generated for method arguments / results are not definitions of the schema
+        declared = {d["name"] for f in rec["pkgs"][0]["files"] for d in f["ast"]["defs"]}
+        pid0 = rec["pkgs"][0]["id"]
+        for m in rec["sem"]["msgs"]:
+            if m["msg"] not in declared:
+                for x in ("New%sWriter", "Parse%s", "Open%s"):
+                    lines.append('\t\t"%s.%s": %s.%s,' % (pid0, x % m["msg"], pid0, x % m["msg"]))
         for e in rec["sem"]["enums"]:
             for v in e["values"]:
                 lines.append('\t\t"%s.%s": %s.%s,' % (rec["pkgs"][0]["id"], v["go"], rec["pkgs"][0]["id"], v["go"]))
